@@ -107,7 +107,7 @@ def run(ck, m):
         fn = short(f.body.id)
         loc = f.body.loc(f.bi) if f.bi is not None else ''
         if w not in sch:
-            ck.ob('C04.b', fn, 'template:%s' % f.text(), False, 'no parser is registered for the word %r of %r' % (w, f.text()), loc)
+            ck.ob('C04.b', fn, 'template:%s' % wire.shape(f), False, 'no parser is registered for the word %r of %r' % (w, f.text()), loc)
             continue
         top, variants, reason = sch[w]
         if reason:
@@ -120,15 +120,15 @@ def run(ck, m):
             if lit == 'candidate':
                 cont = [s for s in top if s.kind == 'container']
                 ok = len(toks) == 4 and len(toks[2]) == 1 and toks[2][0][0] == 'arg' and toks[2][0][2] == 'u128' and bool(cont)
-                ck.ob('C04.b', fn, 'template:%s' % f.text(), ok,
+                ck.ob('C04.b', fn, 'template:%s' % wire.shape(f), ok,
                       '%r: candidate id is a u128 placeholder followed by the node name' % f.text() if ok else
                       '%r does not match `election candidate <u128> <node>`' % f.text(), loc)
             else:
                 ok = len(toks) >= 2
-                ck.ob('C04.b', fn, 'template:%s' % f.text(), ok, '%r parses as an election notice' % f.text(), loc)
+                ck.ob('C04.b', fn, 'template:%s' % wire.shape(f), ok, '%r parses as an election notice' % f.text(), loc)
             continue
         probs, mapping = wire.check_template(m.prog, f, top)
-        ck.ob('C04.b', fn, 'template:%s' % f.text(), not probs,
+        ck.ob('C04.b', fn, 'template:%s' % wire.shape(f), not probs,
               '%r agrees with the %s parser (%s)' % (f.text(), w, mapping) if not probs else
               '%r disagrees with the %s parser %r: %s' % (f.text(), w, top, '; '.join(probs)), loc)
     ck.floor('C04.b', nb, 12, 'distinct templates on the replication stream')
